@@ -6,3 +6,34 @@ pub struct ExErrorKind(std::io::ErrorKind);
 // which the uninterpreted asref_spec leaves open -- so the contracts talk about asref_spec of the literal)
 pub open spec fn lit_content_length() -> Seq<char> { asref_spec::<&str, str>(&"content-length")@ }
 pub open spec fn lit_transfer_encoding() -> Seq<char> { asref_spec::<&str, str>(&"transfer-encoding")@ }
+
+// ---- reading the Content-Length value (rule S1 stand-ins for `s.bytes().all(|b| b.is_ascii_digit())` and `s.parse()`;
+// assumed, from std: u64::from_str accepts an optional '+' and then 1*DIGIT -- for digit-only text exactly the non-empty
+// texts whose decimal value fits in 64 bits, with that value)
+pub open spec fn is_digit_c(c: char) -> bool { 48 <= c as u32 <= 57 }
+pub open spec fn digits_only(s: Seq<char>) -> bool { forall|i: int| 0 <= i < s.len() ==> is_digit_c(#[trigger] s[i]) }
+pub open spec fn dec_value(s: Seq<char>) -> nat decreases s.len() {
+    if s.len() == 0 { 0 } else { dec_value(s.drop_last()) * 10 + ((s.last() as u32 - 48) as nat) }
+}
+#[verifier::external_body]
+pub fn all_ascii_digits(s: &str) -> (r: bool)
+    ensures r == digits_only(s@)
+{ unimplemented!() }
+#[verifier::external_type_specification]
+#[verifier::external_body]
+pub struct ExParseIntError(std::num::ParseIntError);
+#[verifier::external_body]
+pub fn parse_u64(s: &str) -> (r: Result<u64, std::num::ParseIntError>)
+    ensures digits_only(s@) ==> (r is Ok <==> (s@.len() > 0 && dec_value(s@) <= u64::MAX)),
+        digits_only(s@) && r is Ok ==> r->Ok_0 == dec_value(s@),
+{ unimplemented!() }
+// what the region must answer for the Content-Length fields `vs` (in order)
+pub open spec fn cl_result(vs: Seq<AsciiString>, r: Result<Option<u64>, HttpError>) -> bool {
+    if vs.len() == 0 { r == Ok::<Option<u64>, HttpError>(None) }
+    else if vs.len() >= 2 { r is Err && r->Err_0 is InvalidContentLength }
+    else {
+        let t = vs[0].inner()@;
+        if digits_only(t) && t.len() > 0 && dec_value(t) <= u64::MAX { r == Ok::<Option<u64>, HttpError>(Some(dec_value(t) as u64)) }
+        else { r is Err && r->Err_0 is InvalidContentLength }
+    }
+}
